@@ -27,7 +27,7 @@ def contracts():
                 # the closure keeps its real body; what the comparison relies on (each configured identifier is compared as it is) is its ensures clause
                 lambda m: f"crate::titer3::collect_strings(&self.identifiers, |{m.group('p')}: &Identifier| -> (s: String) ensures s@ == {m.group('p')}.value@ //@C06.missing_identifier_detected\n {{ {soft_rules(m.group('body'))} }})"),
                ("T-ITER", r"(?P<a>\w+)\.difference\(&(?P<b>\w+)\)\.count\(\)", r"crate::titer3::difference_count(&\g<a>, &\g<b>)"),
-               ("T-FMT", r"let domains = req_names.*?\.join\(\", \"\);", "let domains = crate::opaque_string();")],
+               ("T-FMT", r"let domains = \w+\s*\.difference\(.*?\.join\(\", \"\);", "let domains = crate::opaque_string();", None)],
         at=[("before_stmt", "if has_miss", 1, """
         proof {
             assert(strset(req_names) == self.identifiers@.map_values(val_fn()).to_set());
